@@ -1004,6 +1004,9 @@ class PyExec:
             else:
                 yield st, Exc('KeyError')
             return
+        if isinstance(o, dict) and is_sym(k) and any(kk is k for kk in o):
+            yield st, o[k]                 # the very key object (e.g. obtained from .keys())
+            return
         if isinstance(o, dict) and is_sym(k):
             keys = [kk for kk in o if ty_of(kk) == ty_of(k)]
             hit = z3.Or(*[term(k) == term(kk) for kk in keys]) if keys else z3.BoolVal(False)
